@@ -51,6 +51,6 @@ def _bounded(pid, script='df_enum.py', what='real accumulator vs pandas on the c
 
 for _pid in ('C06', 'C07', 'C11', 'C12'):
     EXTRA_CHECKS[_pid] = [_bounded(_pid)]
-for _pid in ('C13', 'C08'):
+for _pid in ('C13', 'C08', 'C17'):
     EXTRA_CHECKS[_pid] = [_bounded(_pid, 'pure_enum.py', 'the real helper disagrees with its meaning on this concrete input')]
 EXTRA_CHECKS['C01'] = [_bounded('C01', 'pure_enum.py', 'the real helper disagrees with its list-level meaning on this concrete input')]
